@@ -177,3 +177,12 @@ Theorem C17_recent : forall ents limit,
   0 <= limit -> GetRecentWALRecords ents limit = Ok (Some (lastn limit (dir_recs ents))).
 Proof. exact recent_spec. Qed.
 Print Assumptions C17_recent.
+
+(* Go ranges over the map txnOps in an unspecified order before sorting by XID: whatever order it takes
+   (any permutation of the entries), the sorted transaction list is the same, because XIDs are distinct keys. *)
+Theorem C17_txn_order_independent : forall recs order,
+  let st := fold_left scan_rec recs init_state in
+  Permutation.Permutation order (st_txnops st) ->
+  sort_txns (map (mk_txn (st_txnstatus st)) order) = s_txns (summarize st).
+Proof. intros recs order st P. apply txns_order_independent; [exact P|apply scan_txnops_nodup]. Qed.
+Print Assumptions C17_txn_order_independent.
